@@ -295,10 +295,11 @@ def iv_muldiv(p):
         raise Unsupported('infinite endpoints are covered by the concrete table obligations only')
     lo = spec_lo(*specs)
     top = spec_top(*specs)
-    ob = Ob(wbump(p, 2 * top + 2 * prec + 90), timeout_s=p.get('_t', 60), mul_precise_bits=4096,
+    npow = p.get('n', 2)
+    ob = Ob(wbump(p, max(2, npow) * top + 2 * prec + 90), timeout_s=p.get('_t', 60), mul_precise_bits=4096,
             models=mpmodels.mp_models(contract_divmod=True, contract_sqrt=False))
     G.stats['DIV_PRECISE_BITS'] = 4096
-    base = ob.int('base', -E30, E30)
+    base = ob.int('base', -E30, E30) if fn != 'mpi_pow_int' else ob.int('base', -(1 << 20), 1 << 20)
     tbase = ob.int('tbase', -E30, E30)
     slo, tlo = spec_lo(*ss), spec_lo(*ts)
     sa, sb = mk_end(ob, 'sa', ss[0], base, slo), mk_end(ob, 'sb', ss[1], base, slo)
@@ -315,6 +316,8 @@ def iv_muldiv(p):
     if entry == 'libmp':
         if fn == 'mpi_square':
             outs = ob.run(Li.mpi_square, [s, prec])
+        elif fn == 'mpi_pow_int':
+            outs = ob.run(Li.mpi_pow_int, [s, npow, prec])
         elif point_t:
             outs = ob.run(getattr(Li, fn), [s, ta.tup, prec])
         else:
@@ -325,8 +328,11 @@ def iv_muldiv(p):
         iv = mpmath.iv
         iv.prec = prec
         so, to = iv.make_mpf(s), iv.make_mpf(t)
-        meth = {'mpi_mul': '__mul__', 'mpi_div': '__truediv__'}[fn]
-        outs = ob.run(getattr(iv.mpf, meth), [so, to])
+        if fn == 'mpi_pow_int':
+            outs = ob.run(iv.mpf.__pow__, [so, npow])
+        else:
+            meth = {'mpi_mul': '__mul__', 'mpi_div': '__truediv__'}[fn]
+            outs = ob.run(getattr(iv.mpf, meth), [so, to])
         cls = iv.mpf
 
         def unwrap(v, st):
@@ -335,9 +341,26 @@ def iv_muldiv(p):
             h = st.heap.get((id(v), '_mpi_'))
             return h[1] if h is not None else v._mpi_
     W = G.W
-    K = 2 * top + prec + 8
-    if fn in ('mpi_mul', 'mpi_square', 'mpi_mul_mpf'):
-        if fn == 'mpi_square':
+    K = max(2, npow) * top + prec + 8
+    if fn in ('mpi_mul', 'mpi_square', 'mpi_mul_mpf', 'mpi_pow_int'):
+        if fn == 'mpi_pow_int':
+            # {x**n : x in s}, n >= 2: monotone for odd n; for even n as for the square
+            unit = (zt(base) + B(slo)) * B(npow)
+
+            def pw(e):
+                acc, hi = e.val, 1 << top
+                for _ in range(npow - 1):
+                    acc = V.narrow_mul(acc, e.val, (-hi, hi), (-(1 << top), 1 << top))
+                    hi <<= top
+                return acc
+            pws = [pw(sa), pw(sb)]
+            highs = pws
+            straddle = ss[0][0] == 'neg' and ss[1][0] == 'pos'
+            if npow % 2:
+                lows = pws
+            else:
+                lows = [B(0)] if (straddle or 'zero' in (ss[0][0], ss[1][0])) else [pws[0] if ss[0][0] == 'pos' else pws[1]]
+        elif fn == 'mpi_square':
             # {x*x : x in s}: lower bound 0 if 0 in s else min corner square; upper max(sa^2, sb^2)
             unit = zt(base) + zt(base) + B(2 * slo)
             sq = [V.narrow_mul(e.val, e.val, (-(1 << top), 1 << top), (-(1 << top), 1 << top)) for e in (sa, sb)]
@@ -433,6 +456,8 @@ def iv_muldiv_concrete(p, m):
     if p.get('entry', 'libmp') == 'libmp':
         if fn == 'mpi_square':
             r = Li.mpi_square(s, prec)
+        elif fn == 'mpi_pow_int':
+            r = Li.mpi_pow_int(s, p.get('n', 2), prec)
         elif point_t:
             r = getattr(Li, fn)(s, t[0], prec)
         else:
@@ -442,10 +467,15 @@ def iv_muldiv_concrete(p, m):
         iv = mpmath.iv
         iv.prec = prec
         so, to = iv.make_mpf(s), iv.make_mpf(t)
-        r = (so * to if fn == 'mpi_mul' else so / to)._mpi_
+        r = (so ** p.get('n', 2) if fn == 'mpi_pow_int' else so * to if fn == 'mpi_mul' else so / to)._mpi_
     slo, tlo = spec_lo(*ss), spec_lo(*ts)
     S = [_frac_end(x, base + slo) for x in s]
     T = [_frac_end(x, tbase + tlo) for x in t]
+    if fn == 'mpi_pow_int':
+        n = p.get('n', 2)
+        E0 = n * (base + slo)
+        pts = [S[0] ** n, S[1] ** n] + ([Fraction(0)] if S[0] <= 0 <= S[1] else [])
+        return _concrete_contains(r, pts, E0, prec)
     if fn == 'mpi_square':
         E0 = 2 * (base + slo)
         pts = [S[0] * S[0], S[1] * S[1]] + ([Fraction(0)] if S[0] <= 0 <= S[1] else [])
